@@ -1248,6 +1248,8 @@ static void cmd_fault(char* args) {
     vf_trace_len = 0;
     vf_trace[0] = 0;
     vf_want_trace = (k == 0);
+    if (opt & 8)
+        ensure_preset(); /* the harness's own registry is not part of the read */
     vf_active = 1;
     vf_track = 1;
     edn_result_t r = do_read(p.ptr, n, opt);
